@@ -89,7 +89,11 @@ func validatorIDs(vs []tfsdk.AttributeValidator) []string {
 	for _, v := range vs {
 		switch x := v.(type) {
 		case support.Validator:
-			out = append(out, fmt.Sprintf("verif/support.V(%d)", x.ID))
+			if x.Arg != "" {
+				out = append(out, "verif/support."+x.Arg)
+			} else {
+				out = append(out, fmt.Sprintf("verif/support.V(%d)", x.ID))
+			}
 		default:
 			out = append(out, fmt.Sprintf("%T", v))
 		}
@@ -102,7 +106,11 @@ func planModifierIDs(vs tfsdk.AttributePlanModifiers) []string {
 	for _, v := range vs {
 		switch x := v.(type) {
 		case support.PlanModifier:
-			out = append(out, fmt.Sprintf("verif/support.PM(%d)", x.ID))
+			if x.Arg != "" {
+				out = append(out, "verif/support."+x.Arg)
+			} else {
+				out = append(out, fmt.Sprintf("verif/support.PM(%d)", x.ID))
+			}
 		case tfsdk.RequiresReplaceModifier:
 			out = append(out, "github.com/hashicorp/terraform-plugin-framework/tfsdk.RequiresReplace()")
 		case tfsdk.UseStateForUnknownModifier:
